@@ -6,20 +6,23 @@ P(k, t, v) == [k |-> k, t |-> t, v |-> v]
 MCTargetProps == <<P("variant", "int", "1"), P("sw", "str", "a"), P("hw", "null", "")>>
 OtherProps    == <<P("variant", "int", "2"), P("sw", "str", "b"), P("hw", "str", "x")>>
 
+MCGroups == [g \in {"tgt", "oth", "same"} |->
+  CASE g = "tgt"  -> [run |-> "tgt", ecu |-> "tgt",   props |-> MCTargetProps]
+    [] g = "oth"  -> [run |-> "oth", ecu |-> "other", props |-> OtherProps]
+    [] g = "same" -> [run |-> "oth", ecu |-> "tgt",   props |-> MCTargetProps]]
+
 (* rows of other runs: same requests in the same logged states as the recorded
    run can contain, with answers the recorded ECU never gave (variant 9) or
-   with no answer; `same` rows belong to a run the selection cannot tell apart *)
-FRow(run, ecu, props, st, req, rsp) ==
-  [run |-> run, st |-> st, req |-> req, rsp |-> rsp, eff |-> EffAbs(req, rsp), ecu |-> ecu, props |-> props]
+   with no answer; "same" rows belong to a run the selection cannot tell apart *)
+FRow(g, st, req, rsp) == [g |-> g, st |-> st, req |-> req, rsp |-> rsp]
 S2 == [session |-> 2, level |-> 0]
 MCForeign ==
-  {FRow("oth", "other", OtherProps, st, req, rsp) :
+  {FRow("oth", st, req, rsp) :
      st \in {Default, S2}, req \in {<<"Other", 1>>, <<"DSC", 2>>}, rsp \in {Pos(9), NoReply}}
 MCForeignSmall ==
-  {FRow("oth", "other", OtherProps, Default, req, rsp) :
-     req \in {<<"Other", 1>>, <<"DSC", 2>>}, rsp \in {Pos(9), NoReply}}
-MCForeignSame ==
-  {FRow("oth", "tgt", MCTargetProps, Default, <<"Other", 1>>, Pos(9))}
+  {FRow("oth", Default, req, rsp) : req \in {<<"Other", 1>>, <<"DSC", 2>>}, rsp \in {Pos(9), NoReply}}
+MCForeignSame == {FRow("same", Default, <<"Other", 1>>, Pos(9))}
+MCForeignMix  == MCForeignSmall \cup MCForeignSame
 
 SelNone    == NoSel
 SelName    == [ecu |-> "tgt", props |-> <<>>]
